@@ -15,28 +15,42 @@ update + save code (library and CLI) with two OpenPGP back ends:
 Every run is judged against the statement of C14 (see ``judge``).
 
 Signing failures (part F and every failing-signer point of parts M and W): the signer is made to fail in every way the
-back ends offer (exit status, exit status after partial output, key id without secret key, gpg not installed for the
-signing call / for every call; real GnuPG: public key only, unknown key id).  Besides "the failure is reported" two
+back ends offer (exit status, exit status after partial output, TERMINATED BY A SIGNAL - Popen.wait() negative - with
+empty or partial output, key id without secret key, gpg not installed for the signing call / for every call; real
+GnuPG: public key only, unknown key id).  Besides "the failure is reported" two
 more things are judged: the STATE LEFT ON DISK (``state_after_failure``: the top-level Manifest is still byte-identical,
 or at least still a verifying clear-signed Manifest if it was signed - never an empty or plain file written by the
 failed save) and the FOLLOW-UP (``run_followup``: the next ordinary update+save with a working signer - sign option
 unset for an originally signed tree - is run on what was left behind and judged by the same oracle: it must produce a
 signed top-level Manifest again).
+
+Histories (part H): two update+save runs ONE AFTER THE OTHER IN ONE PROCESS, on two different trees with a loader / CLI
+invocation each, for every ordered pair of key selections {default key, explicit key id A, explicit key id B}^2; every
+save is judged by the same oracle as a single run (signed by exactly the requested key and by no other: the signer is
+told to use no key other than the requested one, the signature is made by it, one valid signature).
+
+Process isolation: a verdict must depend on its case alone.  Thorough tier and replay(): every case runs in a pristine
+process (forked from a helper that never executes a gemato operation).  Quick tier: a case runs in the worker after the
+cases that worker ran before; a result entirely in order is accepted, anything else is discarded and the case re-run in
+a pristine process whose verdict counts (a difference between the two is reported by finish()).
 """
 
 import atexit
 import base64
 import datetime as _dt
 import errno
+import gc
 import hashlib
 import importlib.util
 import io
 import itertools
 import os
+import pickle
 import re
 import signal
 import subprocess
 import tempfile
+import traceback
 import types
 
 import gemato.cli
@@ -55,7 +69,8 @@ LEVEL = 'model_checking'
 RULE = ('part M, full product: sign option {unset, on, off} x top-level Manifest originally {clear-signed and '
         'verified on load, unsigned, clear-signed but loaded with verification off (library only), signed by a '
         'preceding gemato run} x key id {explicit, default} x signer {works, exits non-zero, gpg missing for every '
-        'call, gpg missing for signing only} x layout {flat, nested 3 levels, nested with gz sub-Manifest, '
+        'call, gpg missing for signing only, scripted only: terminated by a signal (negative wait() status) after '
+        'partial output} x layout {flat, nested 3 levels, nested with gz sub-Manifest, '
         'same-directory sibling Manifest; thorough adds bz2 and xz sub-Manifests} x entry contents {plain names, '
         'names needing escapes (space, backslash, tab, non-ASCII), names that are armor lines / start with a dash} x '
         '{edit data files then update, forced save without change} x interface {library, CLI} (thorough: x 3 '
@@ -63,7 +78,8 @@ RULE = ('part M, full product: sign option {unset, on, off} x top-level Manifest
         '(library only)} x {none, 0, 10^6} minus the part-M point x sign option x {signed, unsigned} x signer '
         '{works, exits non-zero} x {flat, nested, nested_gz} x both kinds of save x interface (thorough: x key id x '
         'contents); part F (signing failures): (failing signer, own entries of the top-level Manifest) in {exits '
-        'non-zero, exits non-zero after partial output, key id without secret key, gpg missing for signing only, gpg '
+        'non-zero, exits non-zero after partial output, terminated by a signal with empty stdout (SIGKILL), terminated '
+        'by a signal after partial output (SIGTERM), key id without secret key, gpg missing for signing only, gpg '
         'missing for every call; real GnuPG through the CLI also: -K <file with the public key only>, i.e. an isolated '
         'home built by gemato itself} x {none, DIST + IGNORE of an existing directory + TIMESTAMP} minus the part-M points '
         '(old signer classes x none) x (original state, sign option) in {signed, signed by a preceding gemato run} x '
@@ -73,7 +89,16 @@ RULE = ('part M, full product: sign option {unset, on, off} x top-level Manifest
         'the state left on disk is judged and ONE follow-up update+save (same interface, same kind of change once '
         'more, working signer, sign option unset if the top-level Manifest was signed originally, else on) is '
         'executed and judged as well (quick: in part M only for the contents class "names needing escapes", the '
-        'class parts W and F use); back end "scripted" (fake subprocess in gemato.openpgp) takes everything but the '
+        'class parts W and F use); part H (histories of TWO update+save runs in one process, each on a tree and a '
+        'loader / CLI invocation of its own, both judged like a single run): key selection of save 1 x of save 2 in '
+        '{default key, explicit key id A, explicit key id B}^2 (scripted: A, B = two non-default keys; real GnuPG: A = '
+        'second secret key, B = the default key named by its fingerprint) x interface of save 1 x of save 2 in {library, '
+        'CLI}^2 x (original state, sign option) of save 1 x of save 2 in {(signed, unset), (unsigned, on)}^2 x both '
+        'back ends; save 1 on the tree (flat, plain names), save 2 on (nested with gz sub-Manifest, names needing '
+        'escapes), both "edit then update", working signer (thorough: x signer of save 1 {works, exits non-zero, '
+        'scripted: terminated by a signal after partial output} x layout of save 2 {flat, nested_gz, sibling} x kind of '
+        'save {edit, forced}^2); bound: histories of length 2 (length 3 where save 1 fails: its follow-up run); '
+        'back end "scripted" (fake subprocess in gemato.openpgp) takes everything but the '
         '-K class, back end "real" '
         '(GnuPG, isolated homes) the sub-product signer in {works, secret key missing; part F: secret key missing, '
         'unknown key id}; a state is one '
@@ -104,6 +129,20 @@ ASSUMPTIONS = [
     'follow-up that stops with an error after a part-W run (compress watermark: the failed save had already '
     'renamed sub-Manifests) is DONT_CARE - nothing unsigned is written; sub-Manifests that the failed save had '
     'already rewritten are not judged (C14 is about the top-level signature)',
+    'a signer terminated by a signal is a failing signer like one that exits non-zero (the statement says "signing '
+    'failure", not "exit status"): same oracle, same state-on-disk and follow-up judgement; modelled by the scripted '
+    'back end only (Popen.wait() = -SIGKILL with empty stdout, -SIGTERM with half an envelope on stdout, stderr '
+    'empty); the real GnuPG binary is not killed',
+    'signed "with the signing key" (part H and every other signed save): the signer must be told to use exactly the '
+    'requested key id and no other (set of --local-user values of the recorded argv = {requested id}, empty for the '
+    'default key; GnuPG makes one signature per distinct key named), the signature must be made by that key and '
+    'gpg --decrypt must report exactly one valid signature',
+    'process state: a verdict depends on the case alone - every case of the thorough tier and every replay runs in a '
+    'pristine process (forked from a helper that was itself forked before any gemato operation of a case); in the '
+    'quick tier a case first runs in the worker after that worker\'s earlier cases, a result that is entirely in '
+    'order is accepted and anything else is discarded and re-run in a pristine process, whose verdict is the one '
+    'reported; results that differ between the two are reported as a harness error line; effects of earlier gemato '
+    'operations in the same process are explored deliberately only within part H (two saves) and the follow-up runs',
     'gemato.cli sees a frozen clock (it refreshes an existing TIMESTAMP entry with the current time); a signer that '
     'exits 0 but writes garbage is not modelled (a lying gpg is outside the trust base)',
     'one small tree per contents class (6-7 files, nesting 2), one hash set per seed and variant; TIMESTAMP / DIST / '
@@ -120,13 +159,14 @@ END_SIG = '-----END PGP SIGNATURE-----'
 SIGNS = (None, True, False)
 ORIGS = ('signed', 'unsigned', 'signed_noverify')
 KEYIDS = (False, True)                      # explicit key id given?
-SIGNERS_SCRIPTED = ('ok', 'fail', 'missing', 'missing_sign')
+SIGNERS_SCRIPTED = ('ok', 'fail', 'missing', 'missing_sign', 'killed_partial')
 SIGNERS_REAL = ('ok', 'fail')
 # part F (signing failures): every way the signer can be made to fail
-F_SIGNERS_SCRIPTED = ('fail', 'fail_partial', 'badkey', 'missing_sign', 'missing')
+F_SIGNERS_SCRIPTED = ('fail', 'fail_partial', 'badkey', 'missing_sign', 'missing', 'killed', 'killed_partial')
 F_SIGNERS_REAL = ('fail', 'badkey')
 F_SIGNERS_REAL_CLI = ('keyfile',)           # CLI only: -K <file with the public key alone> (isolated home made by gemato)
-OLD_FAIL_SIGNERS = ('fail', 'missing', 'missing_sign')      # the failing signers of part M
+OLD_FAIL_SIGNERS = ('fail', 'missing', 'missing_sign', 'killed_partial')    # the failing signers of part M
+KILL_SIGNALS = {'killed': signal.SIGKILL, 'killed_partial': signal.SIGTERM}   # signer terminated by a signal
 EXTRAS = ('none', 'own')                    # top-level Manifest carries DIST + IGNORE + TIMESTAMP entries of its own?
 F_PAIRS = (('signed', None), ('signed', True), ('signed_by_gemato', None), ('signed_by_gemato', True),
            ('unsigned', True))              # (original state, sign option): exactly those that require a signature
@@ -150,7 +190,8 @@ NAMES = {
 # scripted key material
 FAKE_DEFAULT = 'D0' * 20
 FAKE_OTHER = '0123456789ABCDEF0123456789ABCDEF01234567'
-FAKE_KEYS = (FAKE_DEFAULT, FAKE_OTHER)
+FAKE_THIRD = 'FEDCBA9876543210FEDCBA9876543210FEDCBA98'
+FAKE_KEYS = (FAKE_DEFAULT, FAKE_OTHER, FAKE_THIRD)
 UNKNOWN_KEY = 'DEADBEEF' * 5                # a key id no back end has a secret key for (signer class 'badkey')
 
 OWN_DIST = 'dist-1.tar.gz'
@@ -296,6 +337,16 @@ class _FakeProc(seams.PopenLike):
                 out = whole[:max(len(BEGIN_SIGNED) + 20, len(whole) // 2)]
                 rc = 2
                 err = b'gpg: signing failed: Operation cancelled\ngpg: [stdin]: clear-sign failed: Operation cancelled\n'
+            elif o.mode in KILL_SIGNALS:
+                # the signer is terminated by a signal: Popen.wait() gives -signum; nothing / part of an envelope
+                # has reached stdout, stderr is empty
+                rc = -int(KILL_SIGNALS[o.mode])
+                if o.mode == 'killed_partial':
+                    try:
+                        whole = fake_sign(data.decode('utf8'), key if key in FAKE_KEYS else FAKE_DEFAULT).encode('utf8')
+                    except UnicodeDecodeError:
+                        whole = b''
+                    out = whole[:max(len(BEGIN_SIGNED) + 20, len(whole) // 2)]
             elif key not in FAKE_KEYS:
                 rc, err = 2, b'gpg: skipped "' + key.encode('utf8') + b'": No secret key\n'
             else:
@@ -623,8 +674,25 @@ def apply_edit(root, case):
             f.write(b'+')
 
 
+def key_name(case):
+    """case['keyid']: False = default key, True = explicit key id A, 'B' = explicit key id B"""
+    return {False: 'default', True: 'explicit', 'B': 'explicit-B'}[case['keyid']]
+
+
+def key_choice(case, homes):
+    """-> (key id handed to gemato or None, fingerprint the signature must be made with)
+    scripted: A, B = two keys other than the default one; real GnuPG: A = the second secret key, B = the default
+    key named explicitly by its fingerprint"""
+    k = case['keyid']
+    if case['backend'] == 'scripted':
+        return {False: (None, FAKE_DEFAULT), True: (FAKE_OTHER, FAKE_OTHER), 'B': (FAKE_THIRD, FAKE_THIRD)}[k]
+    return {False: (None, homes['fpr']), True: (homes['other'], homes['other']), 'B': (homes['fpr'], homes['fpr'])}[k]
+
+
 def case_desc(case):
-    return (case['backend'], SIGN_NAME[case['sign']], case['orig'], 'explicit' if case['keyid'] else 'default',
+    if case.get('history'):
+        return ('H',) + tuple(case_desc(st) for st in case['history'])
+    return (case['backend'], SIGN_NAME[case['sign']], case['orig'], key_name(case),
             case['signer'], case['layout'], case['contents'], case['change'], case['iface'],
             case.get('top', TOP), case.get('wm'), case.get('variant', 0), case.get('extras', 'none'))
 
@@ -809,18 +877,14 @@ def _with_gpg(case, homes, signer, fn):
             os.environ['GNUPGHOME'] = old
 
 
-def execute(case, scratch, homes):
+def execute(case, scratch, homes, root=None):
     """Build, run, observe.  -> dict of observations (no judgement)."""
-    root = fresh_root(scratch)
+    if root is None:
+        root = fresh_root(scratch)
     backend = case['backend']
     top = case.get('top', TOP)
     tree, top_body, subs, hs = build_tree(case)
-    if backend == 'scripted':
-        keyid = FAKE_OTHER if case['keyid'] else None
-        exp_key = FAKE_OTHER if case['keyid'] else FAKE_DEFAULT
-    else:
-        keyid = homes['other'] if case['keyid'] else None
-        exp_key = homes['other'] if case['keyid'] else homes['fpr']
+    keyid, exp_key = key_choice(case, homes)
     orig_text = top_body.encode('utf8')
     if case['orig'] in ('signed', 'signed_noverify'):
         if backend == 'scripted':
@@ -928,7 +992,14 @@ def run_followup(case, ob, homes):
 
 
 FAIL_CLASS = {'ok': None, 'fail': 'exit_nonzero', 'fail_partial': 'exit_nonzero_partial_output', 'badkey': 'unknown_key',
-              'missing': 'binary_missing', 'missing_sign': 'binary_missing', 'keyfile': 'exit_nonzero_keyfile_home'}
+              'missing': 'binary_missing', 'missing_sign': 'binary_missing', 'keyfile': 'exit_nonzero_keyfile_home',
+              'killed': 'terminated_by_signal', 'killed_partial': 'terminated_by_signal_partial_output'}
+
+
+def fail_how(fail_class):
+    return ('exits non-zero' if fail_class.startswith('exit_nonzero') else
+            'is terminated by a signal (negative wait() status)' if fail_class.startswith('terminated_by_signal') else
+            'has no secret key for the requested key id' if fail_class == 'unknown_key' else 'cannot be started')
 
 
 def own_entries(text):
@@ -1121,7 +1192,7 @@ def judge(case, ob, homes):
             labels.append(f'{pre}/signfail:{signer}/NOT-REPORTED/top_after={after}')
             bad({'check': 'signing_failure_not_reported', 'failure': fail_class},
                 f'a signature is required (sign={SIGN_NAME[case["sign"]]}, originally {case["orig"]}) and the signer '
-                f'{"exits non-zero" if signer == "fail" else "cannot be started"} (argv {fake.signs[-1][0] if fake.signs else "-"}), '
+                f'{fail_how(fail_class)} (argv {fake.signs[-1][0] if fake.signs else "-"}), '
                 f'but update+save returned normally ({gem.brief(r)}); top-level Manifest afterwards: {after}'
                 f'{" (a plain unsigned Manifest describing the updated tree)" if fresh_plain else ""} {_show(ob["top"])}')
         elif fresh_plain:
@@ -1132,8 +1203,7 @@ def judge(case, ob, homes):
             dc = 'plain top-level Manifest after signing failure, tree verdict undecided'
         # the state left on disk: the failed save must not have replaced the top-level Manifest by something unsigned
         if s_verdict == 'violation' and not (fresh_plain and reported is not False):
-            how = ('exits non-zero' if fail_class.startswith('exit_nonzero') else
-                   'has no secret key for the requested key id' if fail_class == 'unknown_key' else 'cannot be started')
+            how = fail_how(fail_class)
             check = ('signed_top_level_destroyed_by_failed_signing' if was == 'signed'
                      else 'unsigned_top_level_written_on_signing_failure')
             bad({'check': check, 'left': state},
@@ -1241,7 +1311,7 @@ def judge(case, ob, homes):
         stop = True
 
     if cls == 'signed' and not stop:
-        kk = 'explicit' if case['keyid'] else 'default'
+        kk = key_name(case)
         # (i) the envelope must come from the signer, (ii) which was handed exactly the written entries
         if not fake.signs:
             bad({'check': 'envelope_not_from_signer'},
@@ -1287,10 +1357,12 @@ def judge(case, ob, homes):
                     cnt[f'{backend}_cleartext_equals_written'] = 1
         # (iv) made with the requested key
         if not stop:
-            used = argv[argv.index('--local-user') + 1] if '--local-user' in argv[:-1] else None
-            if used != ob['keyid']:
+            # the signer makes one signature per DISTINCT key it is told to use: exactly the requested one / none (default)
+            used = {argv[k + 1] for k in range(len(argv) - 1) if argv[k] == '--local-user'}
+            if used != ({ob['keyid']} if ob['keyid'] is not None else set()):
                 bad({'check': 'signed_with_wrong_key', 'keyid': kk},
-                    f'openpgp_keyid={ob["keyid"]!r} but the signer was run as {argv!r}')
+                    f'openpgp_keyid={ob["keyid"]!r} but the signer was told to sign with {sorted(used)!r}: it was run as '
+                    f'{argv[:12]!r}{"…" if len(argv) > 12 else ""}')
                 stop = True
             elif sig_fpr != ob['exp_key']:
                 bad({'check': 'signed_with_wrong_key', 'keyid': kk},
@@ -1356,13 +1428,206 @@ def _show(data):
     return s + ('…' if len(data) > 400 else '')
 
 
-def check_case(case, scratch, homes, stats=None):
-    ob = execute(case, scratch, homes)
-    viols, dc, labels, cnt = judge(case, ob, homes)
+def run_history(case, scratch, homes):
+    """part H: the update+save runs of case['history'] one after the other in THIS process, each on a tree of its own
+    with a loader / CLI invocation of its own, each judged by ``judge`` as if it were alone.
+    -> (violations [(sig, message)], dontcare reason or None, labels, counters, observations)"""
+    base = fresh_root(scratch)
+    steps = case['history']
+    keys = '->'.join(key_name(st) for st in steps)
+    viols, labels, cnt, obs = [], [], {}, []
+    dc = None
+    clean = True
+    for i, step in enumerate(steps):
+        root = os.path.join(base, f'h{i + 1}')
+        os.mkdir(root)
+        ob = execute(step, scratch, homes, root=root)
+        obs.append(ob)
+        v, d, lbs, c = judge(step, ob, homes)
+        for sig, msg in v:
+            viols.append(({'check': 'history:' + str(sig.get('check')), 'save': i + 1, 'keys': keys, 'inner': sig},
+                          f'history of {len(steps)} update+save runs in one process (key ids {keys}; separate trees and '
+                          f'loaders), save no. {i + 1} does not satisfy C14: {msg}'))
+        if d and dc is None:
+            dc = f'save no. {i + 1} of a history: {d}'
+        clean = clean and not v and not d
+        for lb in lbs:
+            labels.append(f'history:s{i + 1}:{lb}')
+        for k, n in c.items():
+            if k in ('reloads', 'followup_runs'):
+                cnt['H:' + k] = cnt.get('H:' + k, 0) + n
+            else:
+                cnt[f'H:s{i + 1}:{k}'] = cnt.get(f'H:s{i + 1}:{k}', 0) + n
+        kk = key_name(step)
+        if c.get(f'{step["backend"]}_key_{kk}_confirmed') and c.get(f'{step["backend"]}_reload_verified'):
+            cnt[f'H:{step["backend"]}:save{i + 1}_signed_by_requested_key_alone:{keys}'] = 1
+    cnt['H:histories'] = 1
+    if clean:
+        cnt['H:all_saves_in_order'] = 1
+    if viols:
+        dc = None
+    return viols, dc, labels, cnt, obs
+
+
+def run_case(case, scratch, homes):
+    """Execute and judge ONE case (no accounting).  -> picklable dict"""
+    if case.get('history'):
+        viols, dc, labels, cnt, obs = run_history(case, scratch, homes)
+        transitions = len(case['history']) + cnt.pop('H:reloads', 0) + cnt.get('H:followup_runs', 0)
+        ob = obs[-1]
+    else:
+        ob = execute(case, scratch, homes)
+        viols, dc, labels, cnt = judge(case, ob, homes)
+        transitions = 1 + cnt.pop('reloads', 0) + cnt.get('followup_runs', 0)
+    sample = None
+    if case_desc(case) in SAMPLE_DESCS:
+        sample = {'case': {k: v for k, v in case.items()}, 'outcome': labels,
+                  'top_level_before': _show(ob['orig_top']), 'top_level_after': _show(ob['top'])}
+    return {'violations': [{'sig': sig, 'case': case, 'message': msg} for sig, msg in viols], 'dc': dc,
+            'labels': labels, 'cnt': cnt, 'transitions': transitions, 'sample': sample}
+
+
+def in_child(fn):
+    """fn() in a forked child process -> its (pickled) result.
+
+    Every case runs in a process image of its own: whatever a gemato run leaves behind in the process (module / class
+    level state) cannot reach the next case, so that each verdict depends on the case alone and reproduces in
+    replay(); effects of EARLIER operations in the same process are explored explicitly (follow-up runs, part H)."""
+    r, w = os.pipe()
+    pid = os.fork()
+    if pid == 0:
+        status = 1
+        try:
+            gc.disable()                    # short-lived: no collector passes over the inherited heap (copy-on-write)
+            os.close(r)
+            try:
+                payload = pickle.dumps(('ok', fn()))
+            except BaseException:           # noqa: BLE001 - handed to the parent
+                payload = pickle.dumps(('error', traceback.format_exc()))
+            with os.fdopen(w, 'wb') as f:
+                f.write(payload)
+            status = 0
+        finally:
+            os._exit(status)
+    os.close(w)
+    with os.fdopen(r, 'rb') as f:
+        data = f.read()
+    _pid, st = os.waitpid(pid, 0)
+    if not data:
+        raise RuntimeError(f'C14 case process ended without a result (wait status {st})')
+    kind, val = pickle.loads(data)
+    if kind != 'ok':
+        raise RuntimeError('C14 case process failed:\n' + val)
+    return val
+
+
+# ---- a pristine process for every isolated case
+# Z: the "pristine" helper of this process: forked (worker_init) before the process has executed any gemato operation
+# of a case; it executes nothing itself but forks one child per request.  A process that runs cases itself (quick
+# tier) is no longer pristine - a fork of it would inherit whatever gemato left behind - and isolates through Z.
+Z = {'owner': None, 'pid': None, 'req': None, 'resp': None}
+DIRTY = {'pid': None}
+
+
+def _isolated_job(case, scratch, own_homes):
+    """Runs in a pristine child."""
+    if own_homes and case['backend'] == 'real':
+        hd = os.path.join(scratch, 'gpghomes')
+        os.makedirs(hd, exist_ok=True)
+        homes = make_homes(hd)
+        try:
+            return run_case(case, scratch, homes)
+        finally:
+            close_homes(homes)
+    return run_case(case, scratch, H['homes'])
+
+
+def start_pristine_helper():
+    if Z['owner'] == os.getpid():
+        return
+    if DIRTY['pid'] == os.getpid():
+        raise RuntimeError('C14: this process has already run cases itself, no pristine helper can be forked from it')
+    req_r, req_w = os.pipe()
+    resp_r, resp_w = os.pipe()
+    pid = os.fork()
+    if pid == 0:
+        try:
+            os.close(req_w)
+            os.close(resp_r)
+            fin, fout = os.fdopen(req_r, 'rb'), os.fdopen(resp_w, 'wb')
+            while True:
+                try:
+                    args = pickle.load(fin)
+                except EOFError:
+                    break
+                try:
+                    ans = ('ok', in_child(lambda: _isolated_job(*args)))
+                except BaseException:       # noqa: BLE001 - handed to the requester
+                    ans = ('error', traceback.format_exc())
+                pickle.dump(ans, fout)
+                fout.flush()
+        finally:
+            os._exit(0)
+    os.close(req_r)
+    os.close(resp_w)
+    Z.update(owner=os.getpid(), pid=pid, req=os.fdopen(req_w, 'wb'), resp=os.fdopen(resp_r, 'rb'))
+
+
+def worker_init(tier, seed, scratch):
+    start_pristine_helper()
+
+
+def isolated(case, scratch, own_homes=False):
+    """The case in a pristine process of its own -> result of run_case"""
+    if Z['owner'] == os.getpid():
+        pickle.dump((case, scratch, own_homes), Z['req'])
+        Z['req'].flush()
+        kind, val = pickle.load(Z['resp'])
+        if kind != 'ok':
+            raise RuntimeError('C14 isolated case failed:\n' + val)
+        return val
+    if DIRTY['pid'] == os.getpid():
+        raise RuntimeError('C14: no pristine helper and this process has run cases itself')
+    return in_child(lambda: _isolated_job(case, scratch, own_homes))
+
+
+ANOMALIES = ('prelim_failed', 'unexpected_abort', 'followup_missing_after_good_state',
+             'followup_undecided_after_good_state')
+
+
+def in_order(res):
+    """Did the oracle find everything in order (no violation, none of the anomalies finish() complains about)?"""
+    return not res['violations'] and not any(k.split(':')[-1] in ANOMALIES for k in res['cnt'])
+
+
+def check_case(case, scratch, homes, stats=None, isolate='always', own_homes=False):
+    """isolate='always': the case runs in a pristine process of its own (thorough tier, replay).
+    isolate='unless_in_order' (quick tier): the case first runs in the worker process itself, i.e. after whatever
+    cases this worker has run before; a result that is entirely in order is accepted (the oracle judged this very
+    execution), anything else is discarded and the case is run again in a pristine process, whose result is the
+    one that counts - so every reported violation depends on its case alone and reproduces in replay()."""
+    if isolate == 'always':
+        res = isolated(case, scratch, own_homes)
+    else:
+        start_pristine_helper()
+        DIRTY['pid'] = os.getpid()
+        first = run_case(case, scratch, homes)
+        res = first
+        if not in_order(first):
+            res = isolated(case, scratch)
+            if stats is not None:
+                stats.counters['cases_rerun_in_pristine_process'] += 1
+                if in_order(res):
+                    stats.counters['not_in_order_only_after_earlier_cases_in_the_same_process'] += 1
+                    if not any(n.startswith('HISTORY-DEPENDENT') for n in stats.notes):
+                        what = first['violations'][0]['message'] if first['violations'] else sorted(first['cnt'])
+                        stats.notes.append(f'HISTORY-DEPENDENT result (in order in a pristine process, not in order after '
+                                           f'the cases the worker had run before): {str(what)[:600]}')
     if stats is not None:
+        cnt, dc = res['cnt'], res['dc']
         stats.evaluations += 1
-        stats.transitions += 1 + cnt.pop('reloads', 0) + cnt.get('followup_runs', 0)
-        for lb in labels:
+        stats.transitions += res['transitions']
+        for lb in res['labels']:
             stats.outcomes[lb] += 1
         for k, n in cnt.items():
             stats.counters[k] += n
@@ -1372,7 +1637,9 @@ def check_case(case, scratch, homes, stats=None):
             stats.compared += 1
         stats.case(case_desc(case), nontrivial=not dc)
         stats.counters[f'cases_{case["backend"]}'] += 1
-    return [{'sig': sig, 'case': case, 'message': msg} for sig, msg in viols], ob, labels
+        if res['sample']:
+            stats.sample(res['sample'])
+    return res['violations']
 
 
 # ====================================================================== runner interface
@@ -1434,9 +1701,41 @@ def m_followup(tier, contents):
     return tier != 'quick' or contents == 'escapes'
 
 
+H_KEYS = (False, True, 'B')                # default key, explicit key id A, explicit key id B
+H_REQS = (('signed', None), ('unsigned', True))             # (original state, sign option): a signature is required
+H_TREES = (('flat', 'plain'), ('nested_gz', 'escapes'))     # (layout, contents) of save 1, save 2: different trees
+
+
+def h_dims(tier, backend):
+    """-> (signers of save 1, layouts of save 2, kinds of change) of part H"""
+    if tier == 'quick':
+        return ('ok',), (H_TREES[1][0],), ('edit',)
+    return (('ok', 'fail', 'killed_partial') if backend == 'scripted' else ('ok', 'fail'),
+            ('flat', 'nested_gz', 'sibling'), CHANGES)
+
+
+def h_cases(spec, tier, seed):
+    _h, backend, k1, k2, if1, if2 = spec
+    signers1, layouts2, changes = h_dims(tier, backend)
+    for (o1, s1), (o2, s2), sg1, la2, ch1, ch2 in itertools.product(H_REQS, H_REQS, signers1, layouts2, changes, changes):
+        common = {'backend': backend, 'seed': seed, 'variant': 0, 'top': TOP, 'wm': None}
+        st1 = dict(common, layout=H_TREES[0][0], contents=H_TREES[0][1], sign=s1, iface=if1, orig=o1, keyid=k1,
+                   signer=sg1, change=ch1)
+        st2 = dict(common, layout=la2, contents=H_TREES[1][1], sign=s2, iface=if2, orig=o2, keyid=k2,
+                   signer='ok', change=ch2)
+        yield {'backend': backend, 'seed': seed, 'history': [st1, st2]}
+
+
+def h_count(tier, backend):
+    signers1, layouts2, changes = h_dims(tier, backend)
+    return (len(H_KEYS) ** 2 * len(IFACES) ** 2 * len(H_REQS) ** 2 * len(signers1) * len(layouts2) * len(changes) ** 2)
+
+
 def shards(tier, seed):
     out = []
     for be in ('real', 'scripted'):
+        for k1, k2, if1, if2 in itertools.product(H_KEYS, H_KEYS, IFACES, IFACES):
+            out.append(('H', be, k1, k2, if1, if2))
         for la, co, sg, ifc, va in itertools.product(layouts_for(tier), CONTENTS, SIGNS, IFACES, variants_for(tier)):
             out.append(('M', be, la, co, sg, ifc, va))
         for ifc in IFACES:
@@ -1458,6 +1757,9 @@ def shards(tier, seed):
 
 
 def shard_cases(spec, tier, seed):
+    if spec[0] == 'H':
+        yield from h_cases(spec, tier, seed)
+        return
     if spec[0] == 'M':
         _m, backend, la, co, sg, ifc, va = spec
         for orig, kid, signer, change in itertools.product(origs_for(ifc), KEYIDS, signers_for(backend), CHANGES):
@@ -1485,6 +1787,7 @@ def shard_cases(spec, tier, seed):
 def expected_case_count(tier):
     n = 0
     for be in ('scripted', 'real'):
+        n += h_count(tier, be)
         for ifc in IFACES:
             n += (len(layouts_for(tier)) * len(CONTENTS) * len(SIGNS) * len(variants_for(tier)) * len(origs_for(ifc))
                   * len(KEYIDS) * len(signers_for(be)) * len(CHANGES))
@@ -1514,27 +1817,15 @@ def run_shard(spec, tier, seed, scratch):
     if spec[1] == 'real' and not homes:
         raise RuntimeError('C14 setup() did not run: no gpg homes')
     for case in shard_cases(spec, tier, seed):
-        vs, ob, labels = check_case(case, scratch, homes, stats)
-        if case_desc(case) in SAMPLE_DESCS:
-            stats.sample({'case': {k: v for k, v in case.items()}, 'outcome': labels,
-                          'top_level_before': _show(ob['orig_top']), 'top_level_after': _show(ob['top'])})
+        vs = check_case(case, scratch, homes, stats, isolate='unless_in_order' if tier == 'quick' else 'always')
         for x in vs:
             stats.violation(x['sig'], x['case'], x['message'])
     return stats
 
 
 def replay(case, scratch):
-    homes = None
-    try:
-        if case['backend'] == 'real':
-            hd = os.path.join(scratch, 'gpghomes')
-            os.makedirs(hd, exist_ok=True)
-            homes = make_homes(hd)
-        vs, _ob, _lb = check_case(case, scratch, homes)
-        return vs
-    finally:
-        if homes:
-            close_homes(homes)
+    # in a pristine process of its own; for the real back end with GnuPG homes of its own
+    return check_case(case, scratch, None, isolate='always', own_homes=True)
 
 
 def finish(total, tier):
@@ -1547,7 +1838,7 @@ def finish(total, tier):
                     f'the stated product has {want}')
 
     def seen(*parts):
-        return sum(n for k, n in oc.items() if not k.startswith('followup:') and all(p in k for p in parts))
+        return sum(n for k, n in oc.items() if not k.startswith(('followup:', 'history:')) and all(p in k for p in parts))
     for be in ('scripted', 'real'):
         if not c.get(f'{be}_signer_input_equals_written'):
             errs.append(f'vacuity: counter {be}_signer_input_equals_written is zero')
@@ -1580,6 +1871,31 @@ def finish(total, tier):
                     f'complete (see outcome classes */unexpected_abort/*): not judged')
     if total.compared < total.evaluations // 2:
         errs.append('vacuity: most cases are DONT_CARE')
+    n_hist = c.get('not_in_order_only_after_earlier_cases_in_the_same_process')
+    if n_hist:
+        ex = [n for n in total.notes if n.startswith('HISTORY-DEPENDENT')][:1]
+        errs.append(f'{n_hist} cases were in order in a fresh process but NOT in order when run after other cases in the '
+                    f'same worker process: gemato carries state from one operation to the next in a way that matters to '
+                    f'C14; such histories are judged reproducibly only within the bound of part H / the follow-up runs. '
+                    f'{ex[0] if ex else ""}')
+    # ---- part H: histories of two saves in one process
+    h_want = sum(h_count(tier, be) for be in ('scripted', 'real'))
+    if c.get('H:histories', 0) != h_want:
+        errs.append(f'part H: {c.get("H:histories", 0)} histories run, the stated product has {h_want}')
+    h_classes = {k for k in oc if k.startswith('history:s2:')}
+    if len(h_classes) < 2:
+        errs.append(f'vacuity: part H produced {len(h_classes)} outcome class(es) for the second save')
+    if not any(str(v['sig'].get('check', '')).startswith('history:') for v in total.violations):
+        # on code whose saves do not influence one another every save of every key pair must have been confirmed
+        for be in ('scripted', 'real'):
+            for k1, k2 in itertools.product(H_KEYS, H_KEYS):
+                keys = '->'.join(key_name({'keyid': k}) for k in (k1, k2))
+                for n in (1, 2):
+                    if not c.get(f'H:{be}:save{n}_signed_by_requested_key_alone:{keys}'):
+                        errs.append(f'vacuity: part H, {be}, key ids {keys}: save no. {n} never confirmed as signed by '
+                                    f'the requested key alone')
+        if c.get('H:all_saves_in_order', 0) < h_want // 2:
+            errs.append(f'vacuity: part H: only {c.get("H:all_saves_in_order", 0)} of {h_want} histories judged in order')
     # ---- signing failures: state left on disk and follow-up
     for be in ('scripted', 'real'):
         for ifc in IFACES:
@@ -1632,8 +1948,14 @@ def extra_evidence(total, tier):
     after = {k.split(':', 1)[1]: n for k, n in total.counters.items() if k.startswith('signfail_top_after:')}
     return {
         'states_meaning': 'distinct configuration tuples (backend, sign, original state, key id, signer, layout, '
-                          'contents, change, interface, top-level name, compress watermark, variant)',
+                          'contents, change, interface, top-level name, compress watermark, variant); part H: pairs '
+                          'of such tuples (one history = one state, one execution, two or more transitions)',
         'product_size': expected_case_count(tier),
+        'part_H_histories': total.counters.get('H:histories', 0),
+        'part_H_histories_all_saves_in_order': total.counters.get('H:all_saves_in_order', 0),
+        'part_M_F_runs_signer_terminated_by_signal': sum(
+            n for k, n in total.counters.items()
+            if k.startswith('signfail_state_judged:scripted/') and 'terminated_by_signal' in k),
         'scripted_cases': total.counters.get('cases_scripted', 0),
         'real_gpg_cases': total.counters.get('cases_real', 0),
         'top_level_after_reported_signing_failure': after,
